@@ -530,6 +530,8 @@ func Base(spec string) ([]byte, error) {
 		b, err = DebSynthetic(spec[4:])
 	case strings.HasPrefix(spec, "jarsyn:"):
 		b, err = JarSynthetic(spec[7:])
+	case strings.HasPrefix(spec, "zipsyn:"):
+		b, err = ZipSynthetic(spec[7:])
 	case strings.HasPrefix(spec, "appxpe:"):
 		var peb []byte
 		if peb, err = hex.DecodeString(spec[7:]); err == nil {
